@@ -9,6 +9,7 @@ From Coq Require Import String List Arith Bool ZArith.
 Import ListNotations.
 From NP Require Import Base Values Arrow Abs Kernels Logical ExtArray Codec Steps
   Proofs_Views Proofs_Codec Proofs_Select Proofs_Setitem Proofs_Steps.
+From NP Require Import FrameRows Proofs_FrameRows.
 From NP Require Import Props.C03.
 
 Theorem C05_len : forall p, m_len p = length (rows_of (abs p)).
@@ -79,6 +80,28 @@ Theorem C05_histories : forall ops p, inv_b p = true -> ops_ok p ops = true ->
   res_map abs (m_run p ops) = spec_run (abs p) ops.
 Proof. exact run_refines. Qed.
 Print Assumptions C05_histories.
+
+(* the frame level (FrameRows.v): a frame is a list of named columns, base or nested, of one length; row selection
+   takes every column with ONE indexer (pandas' block manager; the nested column answers through take / the mask
+   kernel).  Row j of the result is row pos[j] of the input WHOLE: its base values and each of its nested tables
+   (or its missing marker) move together; nothing is exchanged between rows, for any frame and any positions. *)
+Theorem C05_frame_take_moves_whole_rows : forall F n pos j, frame_ok n F = true ->
+  forallb (fun i => i <? n) pos = true -> j < length pos ->
+  frame_row (f_take F pos) j = frame_row F (nth j pos 0).
+Proof. exact take_moves_whole_rows. Qed.
+Print Assumptions C05_frame_take_moves_whole_rows.
+
+Theorem C05_frame_filter_keeps_whole_rows : forall F n m j, frame_ok n F = true -> length m = n ->
+  j < count_true m -> frame_row (f_filter F m) j = frame_row F (nth j (true_positions m) 0).
+Proof. exact filter_keeps_whole_rows. Qed.
+Print Assumptions C05_frame_filter_keeps_whole_rows.
+
+(* and the result is again a frame (so selections compose); frame_ok2 adds "missing rows hide nothing" to frame_ok -
+   without it the statement is false (Proofs_FrameRows.Counterexample) *)
+Theorem C05_frame_take_is_frame : forall F n pos, frame_ok2 n F = true ->
+  forallb (fun i => i <? n) pos = true -> frame_ok2 (length pos) (f_take F pos) = true.
+Proof. exact take_frame_ok2. Qed.
+Print Assumptions C05_frame_take_is_frame.
 
 (* non-vacuity: the sliced, two-chunk sample column of C03 satisfies the invariant, and a history of a
    reversed strided slice, a mixed-sign assignment, a take with fill and a dropna is in the domain *)
